@@ -11,13 +11,17 @@ import (
 // disagrees with the specification on it, in the same way (same stage and normalised
 // message for pipeline failures; same mismatch kind, and no salient reference tag that the
 // original did not have, for value mismatches). The signature is computed from the
-// minimal case.
+// minimal case. Passes sweep each kind of reduction once per round (linear in the size of
+// the function); rounds repeat while something shrank.
 
 type minimizer struct {
 	ctx    context.Context
+	env    *hostEnv
 	budget int
 	tests  int
 	want   func(Case, Verdict) bool
+	cur    Case
+	curVd  Verdict
 }
 
 func salientSet(c Case, vd Verdict) map[string]struct{} {
@@ -35,7 +39,9 @@ func sameClass(orig Case, ov Verdict) func(Case, Verdict) bool {
 	switch ov.Kind {
 	case vdPipeline:
 		nm := normMsg(ov.Msg)
-		return func(_ Case, v Verdict) bool { return v.Kind == vdPipeline && v.Stage == ov.Stage && normMsg(v.Msg) == nm }
+		return func(_ Case, v Verdict) bool {
+			return v.Kind == vdPipeline && v.Stage == ov.Stage && normMsg(v.Msg) == nm
+		}
 	case vdPanic:
 		nm := normMsg(ov.Msg)
 		return func(_ Case, v Verdict) bool { return v.Kind == vdPanic && normMsg(v.Msg) == nm }
@@ -102,18 +108,23 @@ func exprSlots(f *Func) []**E {
 	return out
 }
 
-// stmtLists returns pointers to every statement list in the function.
-func stmtLists(f *Func) []*[]*S {
-	var out []*[]*S
+type stmtPos struct {
+	list *[]*S
+	idx  int
+}
+
+// stmtPositions returns every statement position in pre-order.
+func stmtPositions(f *Func) []stmtPos {
+	var out []stmtPos
 	var walk func(b *[]*S)
 	walk = func(b *[]*S) {
-		out = append(out, b)
-		for _, s := range *b {
+		for i, s := range *b {
+			out = append(out, stmtPos{b, i})
 			if s.Body != nil {
 				walk(&s.Body)
 			}
-			for i := range s.Elifs {
-				walk(&s.Elifs[i].Body)
+			for k := range s.Elifs {
+				walk(&s.Elifs[k].Body)
 			}
 			if s.Else != nil {
 				walk(&s.Else)
@@ -158,197 +169,232 @@ func refValueOf(f *Func, e *E, args []Value) (Value, bool) {
 	return o.V, true
 }
 
-func (m *minimizer) try(c Case) (Verdict, bool) {
-	if m.tests >= m.budget {
-		return Verdict{}, false
+func (m *minimizer) spent() bool { return m.tests >= m.budget }
+
+// accept judges a candidate and adopts it when it is smaller and fails the same way.
+func (m *minimizer) accept(c Case) bool {
+	if m.spent() || caseSize(c) >= caseSize(m.cur) {
+		return false
 	}
 	m.tests++
-	vd := judgeCase(m.ctx, c)
-	return vd, m.want(c, vd)
+	vd := judgeCase(m.ctx, m.env, c)
+	if !m.want(c, vd) {
+		return false
+	}
+	m.cur, m.curVd = c, vd
+	return true
 }
 
-// candidates yields reduced variants of c, most aggressive first.
-func (m *minimizer) candidates(c Case, vd Verdict, yield func(Case) bool) {
-	f := c.F
-	// 0. fewer calls
-	if len(c.Calls) > 1 {
-		if !f.Stateful && vd.Kind == vdMismatch {
-			if !yield(Case{F: f, Calls: [][]Value{c.Calls[vd.CallIdx]}}) {
-				return
-			}
-		}
-		for i := range c.Calls {
-			nc := Case{F: f}
-			nc.Calls = append(nc.Calls, c.Calls[:i]...)
-			nc.Calls = append(nc.Calls, c.Calls[i+1:]...)
-			if !yield(nc) {
-				return
-			}
+// passCalls: fewer calls.
+func (m *minimizer) passCalls() bool {
+	progress := false
+	if len(m.cur.Calls) > 1 && !m.cur.F.Stateful && m.curVd.Kind == vdMismatch {
+		if m.accept(Case{F: m.cur.F, Calls: [][]Value{m.cur.Calls[m.curVd.CallIdx]}}) {
+			progress = true
 		}
 	}
-	// 1. `return <sub-expression>` for sub-expressions over parameters only, smallest first
-	if !f.Stateful {
-		ps := paramSet(f)
-		type cand struct {
-			e    *E
-			size int
+	for i := len(m.cur.Calls) - 1; i >= 0 && len(m.cur.Calls) > 1; i-- {
+		if i >= len(m.cur.Calls) {
+			continue
 		}
-		var cs []cand
-		single := len(f.Body) == 1 && f.Body[0].K == SReturn
-		for _, p := range exprSlots(f) {
-			e := *p
-			if e.K == KLit || e.K == KVar {
-				continue
-			}
-			if single && e == f.Body[0].X {
-				continue
-			}
-			if e.K == KLit && e.Bare {
-				continue
-			}
-			if !subset(freeVars(e), ps) {
-				continue
-			}
-			cs = append(cs, cand{e, e.size()})
-		}
-		sort.SliceStable(cs, func(i, j int) bool { return cs[i].size < cs[j].size })
-		for _, k := range cs {
-			nf := &Func{Name: f.Name, Params: f.Params, Ret: k.e.T, Body: []*S{{K: SReturn, X: k.e.clone()}}}
-			if !yield(Case{F: nf, Calls: c.Calls}) {
-				return
-			}
+		nc := Case{F: m.cur.F}
+		nc.Calls = append(nc.Calls, m.cur.Calls[:i]...)
+		nc.Calls = append(nc.Calls, m.cur.Calls[i+1:]...)
+		if m.accept(nc) {
+			progress = true
 		}
 	}
-	// 2. statement removal and un-nesting
-	nl := len(stmtLists(f))
-	for li := 0; li < nl; li++ {
-		n := len(*stmtLists(f)[li])
-		for si := n - 1; si >= 0; si-- {
-			nf := f.clone()
-			l := stmtLists(nf)[li]
-			s := (*l)[si]
-			rest := append(append([]*S{}, (*l)[:si]...), (*l)[si+1:]...)
-			*l = rest
-			if !yield(Case{F: nf, Calls: c.Calls}) {
-				return
-			}
-			// replace a compound statement by one of its bodies
-			var bodies [][]*S
-			switch s.K {
-			case SIf:
-				bodies = append(bodies, s.Body)
-				for _, ei := range s.Elifs {
-					bodies = append(bodies, ei.Body)
-				}
-				if s.HasElse {
-					bodies = append(bodies, s.Else)
-				}
-			case SForCond, SForInf, SForRange:
-				bodies = append(bodies, s.Body)
-			}
-			for bi := range bodies {
-				nf2 := f.clone()
-				l2 := stmtLists(nf2)[li]
-				s2 := (*l2)[si]
-				var inner []*S
-				switch {
-				case s2.K == SIf && bi == 0:
-					inner = s2.Body
-				case s2.K == SIf && bi-1 < len(s2.Elifs):
-					inner = s2.Elifs[bi-1].Body
-				case s2.K == SIf:
-					inner = s2.Else
-				default:
-					inner = s2.Body
-				}
-				spliced := append(append(append([]*S{}, (*l2)[:si]...), inner...), (*l2)[si+1:]...)
-				*l2 = spliced
-				if !yield(Case{F: nf2, Calls: c.Calls}) {
-					return
-				}
-			}
-			// drop else-if / else arms
-			if s.K == SIf && (len(s.Elifs) > 0 || s.HasElse) {
-				nf3 := f.clone()
-				s3 := (*stmtLists(nf3)[li])[si]
-				s3.Elifs, s3.Else, s3.HasElse = nil, nil, false
-				if !yield(Case{F: nf3, Calls: c.Calls}) {
-					return
-				}
-			}
-		}
+	return progress
+}
+
+// passReturnSub: replace the whole body by `return <sub-expression>` for sub-expressions
+// over parameters only, smallest first.
+func (m *minimizer) passReturnSub() bool {
+	f := m.cur.F
+	if f.Stateful {
+		return false
 	}
-	// 3. expression reductions: node -> same-typed child; node -> fresh parameter holding
-	// the node's reference value (single call, non-stateful, parameters-only nodes)
-	ns := len(exprSlots(f))
 	ps := paramSet(f)
-	for i := 0; i < ns; i++ {
-		e := *exprSlots(f)[i]
+	type cand struct {
+		e    *E
+		size int
+	}
+	var cs []cand
+	single := len(f.Body) == 1 && f.Body[0].K == SReturn
+	for _, p := range exprSlots(f) {
+		e := *p
+		if e.K == KLit || e.K == KVar || (single && e == f.Body[0].X) || !e.anchored() {
+			continue
+		}
+		if !subset(freeVars(e), ps) {
+			continue
+		}
+		cs = append(cs, cand{e, e.size()})
+	}
+	sort.SliceStable(cs, func(i, j int) bool { return cs[i].size < cs[j].size })
+	for _, k := range cs {
+		nf := &Func{Name: f.Name, Params: f.Params, Ret: k.e.T, Body: []*S{{K: SReturn, X: k.e.clone()}}}
+		if m.accept(Case{F: nf, Calls: m.cur.Calls}) {
+			return true
+		}
+		if m.spent() {
+			break
+		}
+	}
+	return false
+}
+
+// passStmts: sweep statement positions from the last to the first (removing position k
+// leaves the pre-order numbering of the positions before k untouched); at each, try to
+// remove the statement, replace a compound statement by one of its bodies, or drop its
+// else-if / else arms.
+func (m *minimizer) passStmts() bool {
+	progress := false
+	for k := len(stmtPositions(m.cur.F)) - 1; k >= 0 && !m.spent(); k-- {
+		if k >= len(stmtPositions(m.cur.F)) {
+			continue
+		}
+		// removal
+		nf := m.cur.F.clone()
+		pos := stmtPositions(nf)[k]
+		s := (*pos.list)[pos.idx]
+		*pos.list = append(append([]*S{}, (*pos.list)[:pos.idx]...), (*pos.list)[pos.idx+1:]...)
+		if m.accept(Case{F: nf, Calls: m.cur.Calls}) {
+			progress = true
+			continue
+		}
+		nbodies := 0
+		switch s.K {
+		case SIf:
+			nbodies = 1 + len(s.Elifs)
+			if s.HasElse {
+				nbodies++
+			}
+		case SForCond, SForInf, SForRange:
+			nbodies = 1
+		}
+		done := false
+		for bi := 0; bi < nbodies && !done; bi++ {
+			nf2 := m.cur.F.clone()
+			p2 := stmtPositions(nf2)[k]
+			s2 := (*p2.list)[p2.idx]
+			var inner []*S
+			switch {
+			case s2.K != SIf || bi == 0:
+				inner = s2.Body
+			case bi-1 < len(s2.Elifs):
+				inner = s2.Elifs[bi-1].Body
+			default:
+				inner = s2.Else
+			}
+			*p2.list = append(append(append([]*S{}, (*p2.list)[:p2.idx]...), inner...), (*p2.list)[p2.idx+1:]...)
+			if m.accept(Case{F: nf2, Calls: m.cur.Calls}) {
+				progress, done = true, true
+			}
+		}
+		if !done && s.K == SIf && (len(s.Elifs) > 0 || s.HasElse) {
+			nf3 := m.cur.F.clone()
+			p3 := stmtPositions(nf3)[k]
+			s3 := (*p3.list)[p3.idx]
+			s3.Elifs, s3.Else, s3.HasElse = nil, nil, false
+			if m.accept(Case{F: nf3, Calls: m.cur.Calls}) {
+				progress = true
+			}
+		}
+	}
+	return progress
+}
+
+// passExprs: sweep expression slots front to back (a reduction at slot k leaves the slots
+// before k untouched; k is retried after a success): node -> same-typed child; node ->
+// fresh parameter holding the node's reference value (single call, non-stateful,
+// parameters-only nodes).
+func (m *minimizer) passExprs() bool {
+	progress := false
+	for k := 0; !m.spent(); k++ {
+		slots := exprSlots(m.cur.F)
+		if k >= len(slots) {
+			break
+		}
+		e := *slots[k]
 		if e.K == KLit || e.K == KVar {
 			continue
 		}
+		reduced := false
 		for _, ch := range []*E{e.A, e.B} {
 			if ch != nil && ch.T == e.T && (ch.anchored() || !e.anchored()) {
-				nf := f.clone()
-				*exprSlots(nf)[i] = ch.clone()
-				if !yield(Case{F: nf, Calls: c.Calls}) {
-					return
+				nf := m.cur.F.clone()
+				*exprSlots(nf)[k] = ch.clone()
+				if m.accept(Case{F: nf, Calls: m.cur.Calls}) {
+					reduced = true
+					break
 				}
 			}
 		}
-		if !f.Stateful && len(c.Calls) == 1 && e.size() >= 2 && subset(freeVars(e), ps) {
-			if v, ok := refValueOf(f, e, c.Calls[0]); ok {
+		f := m.cur.F
+		if !reduced && !f.Stateful && len(m.cur.Calls) == 1 && e.size() >= 2 && subset(freeVars(e), paramSet(f)) {
+			if v, ok := refValueOf(f, e, m.cur.Calls[0]); ok {
 				nf := f.clone()
+				ps := paramSet(f)
 				name := fmt.Sprintf("q%d", len(nf.Params))
 				for ps[name] {
 					name += "x"
 				}
 				nf.Params = append(nf.Params, Param{Name: name, T: e.T})
-				*exprSlots(nf)[i] = mkVar(name, e.T)
-				call := append(append([]Value{}, c.Calls[0]...), v)
-				if !yield(Case{F: nf, Calls: [][]Value{call}}) {
-					return
+				*exprSlots(nf)[k] = mkVar(name, e.T)
+				call := append(append([]Value{}, m.cur.Calls[0]...), v)
+				if m.accept(Case{F: nf, Calls: [][]Value{call}}) {
+					reduced = true
 				}
 			}
 		}
+		if reduced {
+			progress = true
+			k-- // look at the new occupant of this slot
+		}
 	}
-	// 4. unused parameters
-	used := map[string]bool{}
-	walkExprs(f.Body, func(e *E) { usedVars(e, used) })
-	for pi := len(f.Params) - 1; pi >= 0; pi-- {
+	return progress
+}
+
+// passParams: drop unused parameters.
+func (m *minimizer) passParams() bool {
+	progress := false
+	for pi := len(m.cur.F.Params) - 1; pi >= 0 && !m.spent(); pi-- {
+		f := m.cur.F
+		if pi >= len(f.Params) {
+			continue
+		}
+		used := map[string]bool{}
+		walkExprs(f.Body, func(e *E) { usedVars(e, used) })
 		if used[f.Params[pi].Name] {
 			continue
 		}
 		nf := f.clone()
 		nf.Params = append(append([]Param{}, f.Params[:pi]...), f.Params[pi+1:]...)
 		nc := Case{F: nf}
-		for _, call := range c.Calls {
+		for _, call := range m.cur.Calls {
 			nc.Calls = append(nc.Calls, append(append([]Value{}, call[:pi]...), call[pi+1:]...))
 		}
-		if !yield(nc) {
-			return
+		if m.accept(nc) {
+			progress = true
 		}
 	}
+	return progress
 }
 
 // minimize returns the smallest case found that fails like (c, vd), its verdict and the
 // number of candidate builds spent.
-func minimize(ctx context.Context, c Case, vd Verdict, budget int) (Case, Verdict, int) {
-	m := &minimizer{ctx: ctx, budget: budget, want: sameClass(c, vd)}
-	cur, curVd := c, vd
-	for progress := true; progress && m.tests < m.budget; {
-		progress = false
-		m.candidates(cur, curVd, func(nc Case) bool {
-			if caseSize(nc) >= caseSize(cur) {
-				return true
-			}
-			v, ok := m.try(nc)
-			if ok {
-				cur, curVd, progress = nc, v, true
-				return false
-			}
-			return m.tests < m.budget
-		})
+func minimize(ctx context.Context, env *hostEnv, c Case, vd Verdict, budget int) (Case, Verdict, int) {
+	m := &minimizer{ctx: withCallTimeout(ctx, minimiseTimeout), env: env, budget: budget, want: sameClass(c, vd), cur: c, curVd: vd}
+	for round := 0; round < 5 && !m.spent(); round++ {
+		progress := m.passCalls()
+		progress = m.passReturnSub() || progress
+		progress = m.passStmts() || progress
+		progress = m.passExprs() || progress
+		progress = m.passParams() || progress
+		if !progress {
+			break
+		}
 	}
-	return cur, curVd, m.tests
+	return m.cur, m.curVd, m.tests
 }
